@@ -22,22 +22,25 @@
   `Judged h op`: a write line supplies the whole requested region (the harness always does); the operation is not one of
   the four conversion-setting commands (they REPLACE the reference stream; the statements are about one stream); not
   SFC_FILE_TRUNCATE(−1) on a descriptor route (C09: `sf_seek`'s −1 is taken for success).  `CloseLast`: nothing follows a
-  `close`.  The geometry: `geomOf h strict` — channels and `ftruncate` support of the handle, seekable, no I/O failures
-  (the model has none), `strictSeek` either way, no lossless / hole / tail claims (the weakest data clauses the campaign uses;
-  reads are still compared with the reference stream wherever no write has replaced it).
+  `close`.  The geometry: `geomOf h strict loss` — channels and `ftruncate` support of the handle, seekable, no I/O failures
+  (the model has none), `strictSeek` either way, ANY claim `loss` of lossless caller types (where a type is claimed, `Judged`
+  asks of a write line what C01 asks: values of that type, lossless for the encoding — then the stream after the write is
+  still compared, against `writeAt` of the cells written: SfProofs/AbsBridgeLossless.lean), no hole / tail claims.
 -/
 import SfProofs.AbsBridgeRun
 import SfProofs.AbsRun
 import SfProps.C05
+import SfProps.C01
 namespace Sf.C05Bridge
 open Sf Sf.AbsBridge
 
 /-- the geometry the predicate runs with for a handle of the concrete model -/
-def geomOf (h : H) (strict : Bool) : Abs.Geom :=
-  { ch := h.ch, canTrunc := h.canTruncate, strictSeek := strict, frames0 := h.frames.toNat, mode0 := absMode h.mode }
+def geomOf (h : H) (strict : Bool) (loss : Ty → Bool := fun _ => false) : Abs.Geom :=
+  { ch := h.ch, canTrunc := h.canTruncate, strictSeek := strict, lossless := loss, frames0 := h.frames.toNat,
+    mode0 := absMode h.mode }
 
-theorem geomOf_for (h : H) (strict : Bool) : GeomFor (geomOf h strict) h :=
-  ⟨rfl, rfl, rfl, rfl, rfl, fun _ => rfl, fun _ => rfl⟩
+theorem geomOf_for (h : H) (strict : Bool) (loss : Ty → Bool) : GeomFor (geomOf h strict loss) h :=
+  ⟨rfl, rfl, rfl, rfl, rfl, fun _ => rfl⟩
 
 /-! ## the invariant covers every opened handle -/
 
@@ -56,10 +59,10 @@ theorem BInv_read_write (h : H) (s : Store) (inv : RwInv h s) : BInv h s :=
 /-- every judged operation keeps it (and the abstraction commutes: the state the predicate reaches stands for the new
     handle) -/
 theorem BInv_preserved (g : Abs.Geom) (h : H) (s : Store) (st : Abs.St) (op : Sf.Op) (gf : GeomFor g h) (bi : BInv h s)
-    (sim : Sim h s st) (hj : Judged h op) (hc : isClose op = false) :
+    (sim : Sim h s st) (hj : Judged g h op) (hc : isClose op = false) :
     ∃ st', Abs.check g st (absOp op) (absOut op (stepAny h s op).2.2) = .ok st' ∧
       Sim (stepAny h s op).1 (stepAny h s op).2.1 st' ∧ BInv (stepAny h s op).1 (stepAny h s op).2.1 :=
-  step_bridge g h s st op gf bi sim hj hc
+  step_bridge C01.widenExact g h s st op gf bi sim hj hc
 
 theorem transcript_length : ∀ (ops : List Sf.Op) (h : H) (s : Store), (transcript h s ops).length = ops.length := by
   intro ops
@@ -73,10 +76,10 @@ theorem transcript_length : ∀ (ops : List Sf.Op) (h : H) (s : Store), (transcr
     (`Sim`; `absSt h s` is one), every geometry that describes the handle, and every judged operation list: the predicate
     accepts every line of the transcript the concrete model produces. -/
 theorem handle_run_accepted_from (g : Abs.Geom) (h : H) (s : Store) (st : Abs.St) (ops : List Sf.Op)
-    (gf : GeomFor g h) (bi : BInv h s) (sim : Sim h s st) (hj : ∀ op ∈ ops, Judged h op) (hcl : CloseLast ops) :
+    (gf : GeomFor g h) (bi : BInv h s) (sim : Sim h s st) (hj : ∀ op ∈ ops, Judged g h op) (hcl : CloseLast ops) :
     Abs.holdsFrom g 0 st (transcript h s ops) = .ok ops.length := by
   rw [Abs.holdsFrom_ok_iff]
-  exact ⟨run_bridge g ops h s st gf bi sim hj hcl, by rw [transcript_length]; omega⟩
+  exact ⟨run_bridge C01.widenExact g ops h s st gf bi sim hj hcl, by rw [transcript_length]; omega⟩
 
 /-- the abstraction map gives such a state -/
 theorem absSt_stands_for (h : H) (s : Store) (bi : BInv h s) : Sim h s (absSt h s) := absSt_sim h s bi
@@ -84,12 +87,12 @@ theorem absSt_stands_for (h : H) (s : Store) (bi : BInv h s) : Sim h s (absSt h 
 /-- THE BRIDGE.  A handle as an open leaves it (read position 0; write position 0, or the frame count on a read/write
     handle): `holdsOn`, started as the check starts it — `St.init` with the geometry of the handle and ref := the decoded
     data region — answers `ok` on the transcript of EVERY judged operation list. -/
-theorem handle_run_accepted (h : H) (s : Store) (strict : Bool) (ops : List Sf.Op) (bi : BInv h s)
+theorem handle_run_accepted (h : H) (s : Store) (strict : Bool) (loss : Ty → Bool) (ops : List Sf.Op) (bi : BInv h s)
     (hr0 : h.mode ≠ .w → h.rpos = 0) (hw0 : h.mode = .w → h.wpos = 0) (hw1 : h.mode = .rw → h.wpos = h.frames)
-    (hj : ∀ op ∈ ops, Judged h op) (hcl : CloseLast ops) :
-    Abs.holdsOn (geomOf h strict) (absRef h s) (fun _ => true) (transcript h s ops) = .ok ops.length := by
+    (hj : ∀ op ∈ ops, Judged (geomOf h strict loss) h op) (hcl : CloseLast ops) :
+    Abs.holdsOn (geomOf h strict loss) (absRef h s) (fun _ => true) (transcript h s ops) = .ok ops.length := by
   unfold Abs.holdsOn
-  apply handle_run_accepted_from _ h s _ ops (geomOf_for h strict) bi _ hj hcl
+  apply handle_run_accepted_from _ h s _ ops (geomOf_for h strict loss) bi _ hj hcl
   have hf := bi.frames_nn
   refine ⟨rfl, by simp only [Abs.St.init, geomOf]; omega, fun hm => ?_, fun hm => ?_, fun _ _ _ => rfl⟩
   · simp only [Abs.St.init]; rw [hr0 hm]; rfl
@@ -100,12 +103,12 @@ theorem handle_run_accepted (h : H) (s : Store) (strict : Bool) (ops : List Sf.O
     · simp only [hx, absMode, if_true]; rw [hw1 hx]; omega
 
 /-- … in the words of the task: a model-conformant library is never flagged, at no line, with no clause -/
-theorem model_never_flagged (h : H) (s : Store) (strict : Bool) (ops : List Sf.Op) (bi : BInv h s)
+theorem model_never_flagged (h : H) (s : Store) (strict : Bool) (loss : Ty → Bool) (ops : List Sf.Op) (bi : BInv h s)
     (hr0 : h.mode ≠ .w → h.rpos = 0) (hw0 : h.mode = .w → h.wpos = 0) (hw1 : h.mode = .rw → h.wpos = h.frames)
-    (hj : ∀ op ∈ ops, Judged h op) (hcl : CloseLast ops) (k : Nat) (tag : String) :
-    Abs.holdsOn (geomOf h strict) (absRef h s) (fun _ => true) (transcript h s ops) ≠ .bad k tag ∧
-    Abs.holdsOn (geomOf h strict) (absRef h s) (fun _ => true) (transcript h s ops) ≠ .skip k := by
-  rw [handle_run_accepted h s strict ops bi hr0 hw0 hw1 hj hcl]
+    (hj : ∀ op ∈ ops, Judged (geomOf h strict loss) h op) (hcl : CloseLast ops) (k : Nat) (tag : String) :
+    Abs.holdsOn (geomOf h strict loss) (absRef h s) (fun _ => true) (transcript h s ops) ≠ .bad k tag ∧
+    Abs.holdsOn (geomOf h strict loss) (absRef h s) (fun _ => true) (transcript h s ops) ≠ .skip k := by
+  rw [handle_run_accepted h s strict loss ops bi hr0 hw0 hw1 hj hcl]
   exact ⟨fun hx => Abs.Verdict.noConfusion hx, fun hx => Abs.Verdict.noConfusion hx⟩
 
 /-! ## where the side conditions are needed -/
@@ -128,7 +131,7 @@ def exOps : List Sf.Op :=
 
 example : BInv C05.exH C05.exStore :=
   BInv_read_only _ _ (HInv_openHandle 0 C05.exStore .r 0x040002 2 8000 C05.exH C05.exStore (by rfl)) rfl
-example : (∀ op ∈ exOps, Judged C05.exH op) ∧ CloseLast exOps := by
+example : (∀ op ∈ exOps, Judged (geomOf C05.exH true) C05.exH op) ∧ CloseLast exOps := by
   refine ⟨?_, by simp [exOps, CloseLast, isClose]⟩
   intro op hop
   simp only [exOps, List.mem_cons, List.mem_nil_iff, or_false] at hop
@@ -136,7 +139,7 @@ example : (∀ op ∈ exOps, Judged C05.exH op) ∧ CloseLast exOps := by
 /-- the ten lines are accepted … -/
 example : Abs.holdsOn (geomOf C05.exH true) (absRef C05.exH C05.exStore) (fun _ => true) (transcript C05.exH C05.exStore exOps)
     = .ok 10 :=
-  handle_run_accepted C05.exH C05.exStore true exOps
+  handle_run_accepted C05.exH C05.exStore true (fun _ => false) exOps
     (BInv_read_only _ _ (HInv_openHandle 0 C05.exStore .r 0x040002 2 8000 C05.exH C05.exStore (by rfl)) rfl)
     (fun _ => rfl) (fun h => by cases h) (fun h => by cases h)
     (by
@@ -155,13 +158,13 @@ example : absRef C05.exH C05.exStore .s16 = #[1, 2, 3, 4, 5, 6] ∧
 
 def exWOps : List Sf.Op := [.write 0 .s16 true 2 [1, 2, 3, 4, 99], .seek 0 0 1, .write 0 .s16 false 3 [5, 6, 7], .seek 0 0 0, .close 0]
 example : Abs.holdsOn (geomOf C05.exW false) (absRef C05.exW {}) (fun _ => true) (transcript C05.exW {} exWOps) = .ok 5 :=
-  handle_run_accepted C05.exW {} false exWOps
+  handle_run_accepted C05.exW {} false (fun _ => false) exWOps
     (BInv_write_only _ _ (HInv_openHandle 0 {} .w 0x040002 2 8000 C05.exW {} (by rfl)) rfl (by decide))
     (fun h => absurd rfl h) (fun _ => rfl) (fun h => by cases h)
     (by
       intro op hop
       simp only [exWOps, List.mem_cons, List.mem_nil_iff, or_false] at hop
-      rcases hop with h | h | h | h | h <;> subst h <;> simp [Judged] <;> decide)
+      rcases hop with h | h | h | h | h <;> subst h <;> simp [Judged, geomOf] <;> decide)
     (by simp [exWOps, CloseLast, isClose])
 example : (transcript C05.exW {} exWOps).map (fun l => (l.2.ret, l.2.err)) = [(2, false), (2, false), (0, true), (0, false), (0, false)] := by
   decide
